@@ -7,6 +7,7 @@ class C18(SCheck):
     prop = "C18"
     level = "exploration"
     default_seed = 18018
+    ustep_rate = 0.35
     N = {"quick": 200, "thorough": 6000}
     K = {"quick": 3, "thorough": 6}
     technique = "deterministic simulation: seeded schedules of block workers; oracle on the supervisor's global event order (fsync after the last data-writing call per destination inode)"
